@@ -1,0 +1,65 @@
+//go:build verif
+
+package tls
+
+import (
+	"bytes"
+	"runtime"
+	"strconv"
+	"sync"
+)
+
+// VerifGateCtl is the scheduler interface behind the blocking gate hooks (verifGate) in
+// UConn.handshakeContext. A test installs one per Config; Gate is called by the goroutine that
+// reached the gate, may block until the test lets it through, and records the event.
+// Only compiled with -tags verif.
+type VerifGateCtl interface {
+	// Gate is called with the gate name, the id of the calling goroutine and the id of the
+	// goroutine that created it (0 if unknown).
+	Gate(point string, goid, creator int64)
+}
+
+var verifGateCtls sync.Map // *Config -> VerifGateCtl
+
+// VerifSetGateCtl installs (or, with nil, removes) the gate controller for all connections using cfg.
+func VerifSetGateCtl(cfg *Config, ctl VerifGateCtl) {
+	if ctl == nil {
+		verifGateCtls.Delete(cfg)
+		return
+	}
+	verifGateCtls.Store(cfg, ctl)
+}
+
+// VerifGoID returns the id of the calling goroutine and of its creator, parsed from the
+// goroutine's own stack trace ("goroutine N [running]:" ... "created by f in goroutine M").
+func VerifGoID() (id, creator int64) {
+	buf := make([]byte, 16<<10)
+	buf = buf[:runtime.Stack(buf, false)]
+	num := func(b []byte) int64 {
+		n := 0
+		for n < len(b) && b[n] >= '0' && b[n] <= '9' {
+			n++
+		}
+		v, _ := strconv.ParseInt(string(b[:n]), 10, 64)
+		return v
+	}
+	if bytes.HasPrefix(buf, []byte("goroutine ")) {
+		id = num(buf[len("goroutine "):])
+	}
+	if i := bytes.LastIndex(buf, []byte(" in goroutine ")); i >= 0 {
+		creator = num(buf[i+len(" in goroutine "):])
+	}
+	return
+}
+
+func verifGate(c *Conn, point string) {
+	if c == nil || c.config == nil {
+		return
+	}
+	v, ok := verifGateCtls.Load(c.config)
+	if !ok {
+		return
+	}
+	id, creator := VerifGoID()
+	v.(VerifGateCtl).Gate(point, id, creator)
+}
